@@ -2,6 +2,7 @@ import MosnVerif.Drive.Util
 import MosnVerif.Model.Headers
 import MosnVerif.Drive.RetryDrive
 import MosnVerif.Model.RouteFinalize
+import MosnVerif.Model.HeaderWiring
 namespace MosnVerif.Drive.C17
 open MosnVerif.Drive MosnVerif.Model.Headers MosnVerif.Gen.HeaderMutation MosnVerif.Gen.ProxyTimeout
 
@@ -143,6 +144,44 @@ def fz (a : List String) (impl : List String) : String :=
     | _, _, _, _, _, _, _, _ => "E E bad-case"
   | _, _ => "E E bad-case"
 
+/-! ### kind `hw`: parsers built from configuration, both directions of one rule -/
+open MosnVerif.Model.HeaderWiring MosnVerif.Gen.HeaderWiring in
+/-- a configured list: `~` nil, `-` empty, else items -/
+def parseOptList {α} (f : String → Option α) (s : String) : Option (Option (List α)) :=
+  if s == "~" then some none else ((parseList s).mapM f).map some
+
+open MosnVerif.Model.HeaderWiring MosnVerif.Gen.HeaderWiring in
+/-- `reqAdds;reqRems/respAdds;respRems`; names lower-cased as `getHeaderPair` / `getHeadersToRemove` do -/
+def parseLevelCfg (s : String) : Option LevelCfg :=
+  match s.splitOn "/" with
+  | [rq, rs] =>
+    match rq.splitOn ";", rs.splitOn ";" with
+    | [qa, qr], [sa, sr] => do
+      let qa ← parseOptList parseAdd qa
+      let qr ← parseOptList unhexStr qr
+      let sa ← parseOptList parseAdd sa
+      let sr ← parseOptList unhexStr sr
+      some { requestHeadersToAdd := qa, requestHeadersToRemove := qr.map (·.map String.toLower),
+             responseHeadersToAdd := sa, responseHeadersToRemove := sr.map (·.map String.toLower) }
+    | _, _ => none
+  | _ => none
+
+open MosnVerif.Model.HeaderWiring MosnVerif.Gen.HeaderWiring in
+def hw (a : List String) (impl : List String) : String :=
+  match a, impl with
+  | [_act, r, v, g, h0], [oReq, oResp] =>
+    match parseLevelCfg r, parseLevelCfg v, parseLevelCfg g, parseHdrs h0 with
+    | some cr, some cv, some cg, some h =>
+      let c : Config := ⟨cr, cv, cg⟩
+      let h := dedupKeys h
+      let m := showHdrs (finalizeRequestMutations c h) ++ " " ++ showHdrs (finalizeResponseHeaders c h)
+      -- declarative reference: per header name, the fold of that direction's configured mutations only
+      let s := showHdrs (specHdrs (dirLevels c .request) h) ++ " " ++ showHdrs (specHdrs (dirLevels c .response) h)
+      let out := oReq ++ " " ++ oResp
+      s!"{if m == out then "A" else "D"} {if s == out then "S" else "V"} {m}"
+    | _, _, _, _ => "E E bad-case"
+  | _, _ => "E E bad-case"
+
 def run (caseToks impl : List String) : String :=
   match caseToks with
   | ["hdr", side, r, v, g, h0] => hdr side r v g h0 impl
@@ -151,6 +190,7 @@ def run (caseToks impl : List String) : String :=
   | "rw" :: rest => RetryDrive.rw rest impl
   | "rd" :: rest => RetryDrive.rd rest impl
   | "fz" :: rest => fz rest impl
+  | "hw" :: rest => hw rest impl
   | _ => "E E unknown-kind"
 
 end MosnVerif.Drive.C17
